@@ -42,6 +42,8 @@ type WScenario struct {
 	Hold     map[string]time.Duration // hook point -> delay (directed schedules)
 	ScriptID int
 	Seed     uint64
+	// HookTrace: log every hook point of the writer as a "hook" event (trace for WriterI conformance)
+	HookTrace bool
 }
 
 func (o Op) String() string {
@@ -78,9 +80,27 @@ func RunWriter(t *tr.Writer, sc WScenario) ([]byte, *Truth, bool) {
 		holds = append(holds, k)
 	}
 	hdr["hold"] = holds
+	if sc.HookTrace {
+		is := [][]interface{}{}
+		for _, o := range sc.Script {
+			if o.K != "S" {
+				is = append(is, []interface{}{o.K, o.N})
+			}
+		}
+		nc := sc.WC + 1
+		if nc < 2 {
+			nc = 2
+		}
+		hdr["iscript"], hdr["nc"] = is, nc
+	}
 	t.Begin("writer/"+sc.Class, hdr)
-	if len(sc.Hold) > 0 {
+	if len(sc.Hold) > 0 || sc.HookTrace {
 		bgzf.VerifHook = func(point string, worker int, arg int64) {
+			if sc.HookTrace {
+				// (hooks sit before channel sends and after channel receives; "e.done" follows
+				// qwg.Done, whose effect a waiting caller may see first - the trace spec allows for that)
+				t.Ev("hook", tr.M{"p": point, "w": worker, "a": arg})
+			}
 			if d, ok := sc.Hold[point]; ok {
 				time.Sleep(d)
 			}
